@@ -257,7 +257,7 @@ emit(const char *mcv, const void *p, int n)
 static void
 script_full(int i)
 {
-	int tid = 100 + i;
+	int tid = 500 + i;
 	fake_ns = (unsigned long long) tid * 1000000ULL;
 	sched_point();
 	ovni_thread_init(tid);
@@ -418,15 +418,15 @@ cmp_thread(int i, const char *loom, int pid, char *why, size_t n)
 	const char *names[2] = { "stream.obs", "stream.json" };
 	for (int k = 0; k < 2; k++) {
 		char p[700], q[700];
-		snprintf(p, sizeof(p), "%s/final/loom.%s/proc.%d/thread.%d/%s", rundir, loom, pid, 100 + i, names[k]);
-		snprintf(q, sizeof(q), "%s/%c%d/final/loom.%s/proc.%d/thread.%d/%s", refdir, scenario, i, loom, pid, 100 + i, names[k]);
+		snprintf(p, sizeof(p), "%s/final/loom.%s/proc.%d/thread.%d/%s", rundir, loom, pid, 500 + i, names[k]);
+		snprintf(q, sizeof(q), "%s/%c%d/final/loom.%s/proc.%d/thread.%d/%s", refdir, scenario, i, loom, pid, 500 + i, names[k]);
 		long la = slurp(p, a, sizeof(a)), lb = slurp(q, b, sizeof(b));
 		if (lb < 0) {
 			snprintf(why, n, "no reference %s", q);
 			return -1;
 		}
 		if (la != lb || memcmp(a, b, (size_t) (la > 0 ? la : 0)) != 0) {
-			snprintf(why, n, "thread %d: %s differs from what the thread writes when it runs alone (%ld vs %ld bytes)", 100 + i, names[k], la, lb);
+			snprintf(why, n, "thread %d: %s differs from what the thread writes when it runs alone (%ld vs %ld bytes)", 500 + i, names[k], la, lb);
 			return 1;
 		}
 	}
